@@ -316,7 +316,7 @@ func ruleR32() *Rule {
 								found["FinalSize"] = cond{fmt.Sprintf("encoded location bytes: 1-hit at 0:%v 1:%v", y0, y1), y0 && !y1}
 							}
 						case *ssa.Call:
-							if f := x.Call.StaticCallee(); f != nil && f.Name() == "under32Bits" && towardsTrue {
+							if f := x.Call.StaticCallee(); f != nil && namedFn(f, "under32Bits") && towardsTrue {
 								found["under32Bits"] = cond{"document number fits 31 bits", true}
 							}
 						}
